@@ -19,6 +19,9 @@ CONSTANTS MaxBlocks, MinBlocks, MaxRuns,
           PosText,                \* TRUE: the first run of the i-th block holds the i-th plain class (distinct texts, no blow-up)
           TblOffs,                \* offsets into CellCls at which a table starts cycling
           EmptyCls,               \* what an "empty" paragraph holds: "none" (no run) or a text class without words
+          BlankKinds,             \* the kinds of styled paragraph ("h" "q" "code" "li") that are also generated blank (holding EmptyCls)
+          BlankOnly,              \* the positions in the body at which blank paragraphs, and only they, are generated ({} = anywhere)
+          NumPrs,                 \* numbering properties of a heading / quote / code paragraph: "" (none) "bul" "num"
           TblShapes,              \* "1x1" .. "3x3"  (rows x columns)
           CellCls,                \* sequence of text classes cycled through the cells
           Gfms, Setexts, Metas, Bullets, Emphs, Langs, Wraps, Miscs,   \* option values
@@ -32,7 +35,8 @@ vars == <<g>>
 \* presets for CellCls (a cfg file cannot spell a sequence)
 CS_plain == <<"w1", "w2", "w3", "two">>
 CS_mix   == <<"w1", "pipe", "w2", "empty", "star", "w3", "nl", "lead", "cjk">>
-CS_meta  == <<"pipe", "star", "us", "tick", "bs", "lt", "amp", "brk", "link", "tilde", "hash", "numdot", "dash", "gt", "nl", "tab", "dbl", "trail", "w1">>
+CS_meta  == <<"pipe", "star", "us", "tick", "bs", "lt", "amp", "brk", "link", "tilde", "hash", "numdot", "dash", "gt", "nl", "tab", "dbl", "trail", "w1",
+             "plus", "numpar", "num2", "m-dash", "m-plus", "m-star", "m-num", "m-par", "m-hash", "m-gt", "m-rule", "m-eq", "dashw", "decimal">>
 
 FlagsOf(nm) == CHOOSE f \in SUBSET AllFlags : FlagName(f) = nm
 ShapeR(s) == CASE s \in {"1x1", "1x2", "1x3"} -> 1 [] s \in {"2x1", "2x2", "2x3"} -> 2 [] OTHER -> 3
@@ -66,27 +70,39 @@ TblBlock(s, off) ==
 
 FirstAt == IF PosText THEN {CS_plain[(Len(g.body) % Len(CS_plain)) + 1]} ELSE FirstCls
 
+\* at a position of BlankOnly nothing but a blank paragraph is added
+Content == Building /\ (Len(g.body) + 1) \notin BlankOnly
+Blanking == Building /\ (BlankOnly = {} \/ (Len(g.body) + 1) \in BlankOnly)
+NumPrOf(k) == IF k = "p" THEN {""} ELSE NumPrs
+
 AddPara ==
-  /\ Building
-  /\ \E k \in Kinds \cap {"p", "q", "code"}, fn \in FlagNames, c \in FirstAt :
-        g' = [g EXCEPT !.body = Append(@, Blk(k, 0, "", <<Run(FlagsOf(fn), c)>>, <<>>))]
+  /\ Content
+  /\ \E k \in Kinds \cap {"p", "q", "code"}, fn \in FlagNames, c \in FirstAt : \E a \in NumPrOf(k) :
+        g' = [g EXCEPT !.body = Append(@, Blk(k, 0, a, <<Run(FlagsOf(fn), c)>>, <<>>))]
 AddHeading ==
-  /\ Building /\ "h" \in Kinds
-  /\ \E n \in HLevels, fn \in FlagNames, c \in FirstAt :
-        g' = [g EXCEPT !.body = Append(@, Blk("h", n, "", <<Run(FlagsOf(fn), c)>>, <<>>))]
+  /\ Content /\ "h" \in Kinds
+  /\ \E n \in HLevels, fn \in FlagNames, c \in FirstAt, a \in NumPrs :
+        g' = [g EXCEPT !.body = Append(@, Blk("h", n, a, <<Run(FlagsOf(fn), c)>>, <<>>))]
 AddItem ==
-  /\ Building /\ "li" \in Kinds
+  /\ Content /\ "li" \in Kinds
   /\ \E a \in LiTypes, n \in LiLevels, fn \in FlagNames, c \in FirstAt :
         g' = [g EXCEPT !.body = Append(@, Blk("li", n, a, <<Run(FlagsOf(fn), c)>>, <<>>))]
+BlankRuns(e) == IF e = "none" THEN <<>> ELSE <<Run({}, e)>>
 AddEmpty ==
-  /\ Building /\ "empty" \in Kinds
+  /\ Blanking /\ "empty" \in Kinds
   /\ \E e \in EmptyCls :
-        g' = [g EXCEPT !.body = Append(@, Blk("empty", 0, "", IF e = "none" THEN <<>> ELSE <<Run({}, e)>>, <<>>))]
+        g' = [g EXCEPT !.body = Append(@, Blk("empty", 0, "", BlankRuns(e), <<>>))]
+\* a heading / quote / code paragraph / list item without a word
+AddBlank ==
+  /\ Blanking
+  /\ \E k \in BlankKinds, e \in EmptyCls :
+        \E n \in (IF k = "h" THEN HLevels ELSE {0}), a \in (IF k = "li" THEN LiTypes ELSE NumPrs) :
+           g' = [g EXCEPT !.body = Append(@, Blk(k, n, a, BlankRuns(e), <<>>))]
 AddTable ==
-  /\ Building /\ "tbl" \in Kinds
+  /\ Content /\ "tbl" \in Kinds
   /\ \E s \in TblShapes, off \in TblOffs : g' = [g EXCEPT !.body = Append(@, TblBlock(s, Len(g.body) + off))]
 AddRun ==
-  /\ g.ph = "body" /\ g.body # <<>> /\ LastB.k \in {"p", "h", "q", "code", "li"} /\ Len(LastB.runs) < MaxRuns
+  /\ g.ph = "body" /\ g.body # <<>> /\ LastB.k \in {"p", "h", "q", "code", "li"} /\ LastB.runs # <<>> /\ Len(LastB.runs) < MaxRuns
   /\ \E fn \in FlagNames, c \in MoreCls :
         g' = [g EXCEPT !.body[Len(g.body)].runs = Append(@, Run(FlagsOf(fn), c))]
 Finish ==
@@ -96,7 +112,7 @@ ChooseOpts ==
   /\ g.ph = "opts"
   /\ \E o \in OptSet : \E v \in ViaSet(o) : g' = [g EXCEPT !.ph = "done", !.o = o, !.via = v]
 
-Next == AddPara \/ AddHeading \/ AddItem \/ AddEmpty \/ AddTable \/ AddRun \/ Finish \/ ChooseOpts
+Next == AddPara \/ AddHeading \/ AddItem \/ AddEmpty \/ AddBlank \/ AddTable \/ AddRun \/ Finish \/ ChooseOpts
 Spec == Init /\ [][Next]_vars
 
 Done == g.ph = "done"
@@ -205,6 +221,15 @@ Inv_Sensitive ==
                    \E w \in Judge(B, O, swapped, "exp") : w.fld = "order" /\ "tbl<par" \in w.ks
              /\ (O.gfm /\ obs # <<>> /\ obs[1].k \notin {"tbl", "code"} /\ obs[1].toks # <<>> /\ obs[1].toks[1].t \notin Ws) =>
                    \E w \in Judge(B, O, [obs EXCEPT ![1] = FlipFirst(@)], "exp") : w.fld = "flags"
+
+\* (8) the style decides what a paragraph is: numbering properties on a heading / quote / code paragraph change nothing
+StripNum(bs) == [i \in 1..Len(bs) |-> IF bs[i].k \in {"h", "q", "code"} THEN [bs[i] EXCEPT !.a = ""] ELSE bs[i]]
+Inv_StyleWins == Done => \A o \in OptUniverse \cup {O} : ToMd(StripNum(B), o) = ToMd(B, o)
+
+\* (9) a block that shows nothing (an empty paragraph, a blank heading / quote / code paragraph / list item) leaves no
+\*     trace: without it the other blocks look the same and stand in the same order
+NoSrc(es) == [i \in 1..Len(es) |-> [es[i] EXCEPT !.src = 0]]
+Inv_BlankNoTrace == Done => \A o \in OptUniverse \cup {O} : NoSrc(ToMd(SelectSeq(B, Visible), o)) = NoSrc(ToMd(B, o))
 
 \* (7) export is compositional over blocks and changes nothing a later export can see
 Act_Compositional ==
